@@ -182,12 +182,18 @@ def run_time_cases(cases, zone, mode, frontend="wsgi"):
 
 def obj_ics(obj, uid):
     lines = ["BEGIN:VCALENDAR", "VERSION:2.0", "PRODID:-//verif//cq//EN"]
+    nev = 0
     for comp in obj:
         lines.append("BEGIN:" + comp["kind"])
         lines.append("UID:" + uid)
         lines.append("DTSTAMP:20200101T000000Z")
         if comp["kind"] == "VEVENT":
-            lines.append("DTSTART:20200301T100000Z")
+            nev += 1
+            if nev == 1:
+                lines.append("DTSTART:20200301T100000Z")
+            else:       # a further component of the same type: an override of one instance
+                lines.append("DTSTART:202003%02dT120000Z" % (7 + nev))
+                lines.append("RECURRENCE-ID:202003%02dT100000Z" % (7 + nev))
         if comp["summary"]:
             lines.append("SUMMARY:" + comp["summary"])
         if comp["att"] == "plain":
@@ -234,7 +240,7 @@ def run_filter_cases(table, frontend="wsgi"):
         assert w.request("MKCALENDAR", "/user/calendars/f/").status in range(200, 300)
         objs = []
         for t in table:
-            key = repr(sorted((c["kind"], c["summary"], c["att"]) for c in t["obj"]))
+            key = repr([(c["kind"], c["summary"], c["att"]) for c in t["obj"]])
             if key not in objs:
                 objs.append(key)
                 name = "o%03d.ics" % (len(objs) - 1)
@@ -248,7 +254,7 @@ def run_filter_cases(table, frontend="wsgi"):
             if fk not in cache:
                 cache[fk] = report_hrefs(w, "/user/calendars/f/", filter_xml(t["f"]))
             names, err, _ = cache[fk]
-            key = repr(sorted((c["kind"], c["summary"], c["att"]) for c in t["obj"]))
+            key = repr([(c["kind"], c["summary"], c["att"]) for c in t["obj"]])
             name = "o%03d.ics" % objs.index(key)
             out.append({"f": t["f"], "obj": t["obj"], "err": err,
                         "got": (names is not None and name in names)})
